@@ -357,6 +357,8 @@ func (t *Task) runWithLocking() {
 	// enter executing state
 	t.executing = true
 	t.runSubmissions = t.submissions
+	// reset executeAt to detect if task set next execution itself
+	t.executeAt = time.Time{}
 	verifPoint("tasks.run.admitted", t.name)
 	t.lock.Unlock()
 	verifPoint("tasks.run.checked", t.name)
@@ -450,9 +452,6 @@ func (t *Task) executeWithLocking() {
 
 		t.lock.Unlock()
 	}()
-
-	// reset executeAt to detect if task set next execution itself
-	t.executeAt = time.Time{}
 
 	// run
 	err := t.taskFn(t.ctx, t)
